@@ -10,6 +10,7 @@ import (
 	"encoding/json"
 	"fmt"
 	"os"
+	"runtime/debug"
 	"runtime/metrics"
 	"runtime/pprof"
 	"strconv"
@@ -132,16 +133,21 @@ func memoryGuard() {
 	if v, err := strconv.Atoi(os.Getenv("VSIM_MEMLIMIT_MB")); err == nil && v > 0 {
 		limit = uint64(v) << 20
 	}
-	sample := []metrics.Sample{{Name: "/memory/classes/total:bytes"}, {Name: "/memory/classes/heap/released:bytes"}}
+	// A legitimate heavy run (thorough crash arms clone whole directory trees per image) may let the heap balloon
+	// with garbage: the soft limit makes the collector work harder before that happens, and the guard looks at
+	// what is LIVE after the last collection; only far above that does the total count on its own.
+	debug.SetMemoryLimit(int64(limit) * 3 / 4)
+	sample := []metrics.Sample{{Name: "/gc/heap/live:bytes"}, {Name: "/memory/classes/total:bytes"}, {Name: "/memory/classes/heap/released:bytes"}}
 	for {
 		time.Sleep(100 * time.Millisecond)
 		metrics.Read(sample)
-		if sample[0].Value.Kind() != metrics.KindUint64 {
+		if sample[0].Value.Kind() != metrics.KindUint64 || sample[1].Value.Kind() != metrics.KindUint64 {
 			continue
 		}
-		used := sample[0].Value.Uint64() - sample[1].Value.Uint64()
-		if used > limit {
-			fmt.Fprintf(os.Stderr, "fatal error: runaway allocation: the process uses more than the simulator's limit of %d MiB\n", limit>>20)
+		live := sample[0].Value.Uint64()
+		total := sample[1].Value.Uint64() - sample[2].Value.Uint64()
+		if live > limit || total > 4*limit {
+			fmt.Fprintf(os.Stderr, "fatal error: runaway allocation: memory above the simulator's limit of %d MiB live\n(measured: live heap %d MiB, process %d MiB)\n", limit>>20, live>>20, total>>20)
 			os.Exit(67)
 		}
 	}
